@@ -23,19 +23,22 @@ def registry():
     try:
         from . import props_r
         reg.update(props_r.PROPS)
+        from . import props_c06
+        reg.update(props_c06.PROPS)
     except ImportError:
         pass
     return reg
 
 
-def shrink(prop, case, status, budget=150):
+def shrink(prop, case, status, budget=150, seconds=90):
     cur = case
     progress = True
-    while progress and budget > 0:
+    t_end = time.time() + seconds
+    while progress and budget > 0 and time.time() < t_end:
         progress = False
         for cand in prop.shrink_candidates(cur):
             budget -= 1
-            if budget <= 0:
+            if budget <= 0 or time.time() > t_end:
                 break
             try:
                 r = prop.evaluate([cand])[0]
@@ -110,6 +113,10 @@ def run_prop(prop, tier, rnd, out):
     known = core.load_known_findings()
     B = 500
     for i in range(0, len(cases), B):
+        if len(out.spec_failures) >= 40:
+            # the property is already refuted on many inputs: the rest adds nothing
+            out.extra["stopped_after_failures"] = i
+            break
         chunk = cases[i:i + B]
         results = prop.evaluate(chunk)
         for c, r in zip(chunk, results):
